@@ -1419,7 +1419,8 @@ fn wake_send_waiters<T>(waiters: &mut LinkedList<SendWaitQueueEntry<T>>) {''',
         }
 
         /// Creates a new oneshot channel which can be used to exchange values""",
-     'expect': {'C12': ['C12.W'], 'C01': ['C01.I8']}},
+     # (C01 holds here - the destructor is judged as a transition of its own and keeps the queue invariant)
+     'expect': {'C12': ['C12.R6']}},
     # ---------------------------------------------------------------- found by the second-generation sweep
     {'name': 'fixedbuf-pop-asserts-len-above-one', 'file': 'src/buffer/ring_buffer.rs',
      'old': '            assert!(self.buffer.len() > 0);',
